@@ -340,7 +340,7 @@ fn read_fault(out: &mut Out, name: &str, enc: usize, data: &[u8], sched: &[Ev], 
     out.count(&format!("read.fault.{}", KIND_NAMES[k as usize]));
 }
 
-pub const RULE: &str = "read side: bundled maps (every byte offset of the small ones, sampled offsets of the large ones; UTF-8 as bundled plus UTF-16 re-encodings of small ones) and generated texts, delivered through a schedule that hands out exactly o bytes (one chunk / random pieces / with Interrupted) and then fails with Other, UnexpectedEof, PermissionDenied, TimedOut or WouldBlock; UTF-16LE streams (complete, and cut right after the low byte of a line feed) whose reader fails, is interrupted or ends exactly at the read of the byte after the 0x0A; faultless schedules with random Interrupted; write side: Beatmap::encode of every decoded bundled map, generated maps and a compact map with every record kind and path-type spelling (all four modes, every output offset) into a writer that fails / returns Ok(0) after o accepted bytes (every o for small maps), with whole and short writes, Interrupted, flush failure; non-trivial = fault after at least one complete line (read) or at least 3 write calls with a non-empty schedule (write); distinct = distinct case lines";
+pub const RULE: &str = "read side: bundled maps (every byte offset of the small ones, sampled offsets of the large ones; UTF-8 as bundled plus UTF-16 re-encodings of small ones) and generated texts, delivered through a schedule that hands out exactly o bytes (one chunk / random pieces / with Interrupted) and then fails with Other, UnexpectedEof, PermissionDenied, TimedOut or WouldBlock; single-byte delivery with the fault or Interrupted while read_bom holds 0..3 bytes, in the four encodings; UTF-16LE streams (complete, and cut right after the low byte of a line feed) whose reader fails, is interrupted or ends exactly at the read of the byte after the 0x0A; faultless schedules with random Interrupted; write side: Beatmap::encode of every decoded bundled map, generated maps and a compact map with every record kind and path-type spelling (all four modes, every output offset) into a writer that fails / returns Ok(0) after o accepted bytes (every o for small maps), with whole and short writes, Interrupted, flush failure; non-trivial = fault after at least one complete line (read) or at least 3 write calls with a non-empty schedule (write); distinct = distinct case lines";
 
 pub fn generate(tier: &str, seed: u64, out: &mut Out) {
     let thorough = tier == "thorough";
@@ -384,7 +384,7 @@ pub fn generate(tier: &str, seed: u64, out: &mut Out) {
             if !big || enc == 0 {
                 let reference = decode_bytes(&data);
                 for j in 0..(if big { 2 } else { 4 }) {
-                    let s = rand_sched(&mut r, len, 3, true);
+                    let s = rand_sched(&mut r, len, if j % 2 == 0 { 1 } else { 3 }, true);
                     let plain: Vec<Ev> = s.iter().copied().filter(|e| *e != Ev::Interrupted).collect();
                     if !big {
                         out.case(case_c08(&data, &s), impl_lines(&data, &s), describe(name, enc, len, &s), s.len() >= 2 && len >= 3);
@@ -457,6 +457,51 @@ pub fn generate(tier: &str, seed: u64, out: &mut Out) {
                     }
                     out.count("read.interrupted_or_eof_at_extra_byte_read");
                 }
+            }
+        }
+    }
+    // BOM sniffing: read_bom collects up to three bytes over as many chunks as it takes (the
+    // repair of D4).  The reader fails or is interrupted while it has 0, 1 or 2 of them, and right
+    // after the third; single-byte delivery up to the fault.
+    {
+        let text = "osu file format v14\n\n[Metadata]\nTitle:abc\n";
+        for enc in 0..4usize {
+            let data = encode_text(text, enc);
+            let reference = decode_bytes(&data);
+            for o in 0..=5usize {
+                for k in 1..=5u8 {
+                    let mut s: Vec<Ev> = vec![];
+                    for i in 0..o {
+                        if (i + k as usize) % 2 == 0 {
+                            s.push(Ev::Interrupted);
+                        }
+                        s.push(Ev::Chunk(1));
+                    }
+                    s.push(Ev::Interrupted);
+                    s.push(Ev::Fail(k));
+                    read_fault(out, "bom-sniffing", enc, &data, &s, k, o, true);
+                    out.count("read.fault_during_bom_sniffing");
+                }
+                // Interrupted only, at the same places: the outcome of from_bytes
+                let mut s: Vec<Ev> = vec![];
+                for _ in 0..o {
+                    s.push(Ev::Interrupted);
+                    s.push(Ev::Chunk(1));
+                }
+                s.push(Ev::Interrupted);
+                s.push(Ev::Interrupted);
+                s.push(Ev::Chunk(2));
+                s.push(Ev::Chunk(data.len()));
+                let d = describe("bom-sniffing", enc, data.len(), &s);
+                out.case(case_c08(&data, &s), impl_lines(&data, &s), d.clone(), true);
+                let got = decode_sched(&data, &s);
+                out.oracle_checks += 1;
+                if let Ok(Err(e)) = &got {
+                    out.fail("", &d, &format!("no fault was injected (Interrupted during BOM sniffing) but decode returned {:?}", e.kind()));
+                } else if let Some(x) = diff_results(&got, &reference) {
+                    out.fail("", &d, &format!("Interrupted during BOM sniffing changed the outcome: {x}"));
+                }
+                out.count("read.interrupted_during_bom_sniffing");
             }
         }
     }
